@@ -233,24 +233,18 @@ func TestVerifC06Edns(t *testing.T) {
 				k += "-strict"
 			}
 		}
-		fkey := ""
-		relax := 0
-		if !called && obs != nil && obs.Rcode == dns.RcodeBadVers && ecsCoq != "None" {
-			fkey, relax = "badvers-ecs-reflected", 3
+		switch {
+		case !called && obs != nil && obs.Rcode == dns.RcodeBadVers && ecsCoq != "None":
 			k += "-ecs"
-			if tr == vC06UDP && len(reply) > vC06Limit(body) {
-				relax = 7
-			}
-		} else if !called && obs != nil && obs.Rcode == dns.RcodeBadVers && tr == vC06UDP && len(reply) > vC06Limit(body) {
-			fkey, relax = "badvers-reply-oversize", 4
-			k += "-oversize"
-		} else if called && extraOpt && gq.hasOpt && obs != nil {
-			fkey, relax = "edns-extra-opt-relayed", 3
+		case !called && obs != nil && obs.Rcode == dns.RcodeBadVers && tr == vC06UDP && len(raw) > vC06Limit(body):
+			k += "-bigquery"
+		case called && extraOpt && gq.hasOpt && obs != nil:
 			k += "-extraopt"
-		} else if called && foreign && gq.hasOpt && obs != nil {
-			fkey, relax = "edns-foreign-option-relayed", 1
+		case called && foreign && gq.hasOpt && obs != nil:
 			k += "-foreignopt"
 		}
+		fkey := ""
+		relax := 0
 		nontrivial := !(called && !gq.hasOpt && sc.optMode == 0 && len(sc.ns) == 0)
 		rec := map[string]any{
 			"k": k, "coq": coq, "nontrivial": nontrivial,
